@@ -130,6 +130,10 @@ let predict (c : string) (obs : string) : string * string * bool =
       let refused = (mode = "1") in
       let h2gun = (gun = "http2") in
       let target_h2 = h2gun && mode <> "2" in
+      let opts_s = next () in
+      let opts = { go_dump = (opts_s.[1] = '1'); go_trace = (opts_s.[3] = '1'); go_debug = (opts_s.[5] = '1');
+                   go_answlog = (match String.sub opts_s 7 (String.length opts_s - 7) with
+                                 | "-" -> None | "all" -> Some AnswAll | "warning" -> Some AnswWarning | "error" -> Some AnswError | _ -> Some AnswOther) } in
       let iters = num () in
       let n = num () in
       let pp_codes = ref [] in
@@ -154,10 +158,10 @@ let predict (c : string) (obs : string) : string * string * bool =
           | ["a"; st; pat] -> [ assert_process { as_body = [bytes_of_hex pat]; as_headers = []; as_status = z_of_int (int_of_string st); as_size = None }
                                   { rv_status = status; rv_header = (fun _ -> []); rv_body = body } ]
           | _ -> failwith "pp") in
-        { si_pre_ok = true; si_tmpl_ok = (tmpl <> "e"); si_prep_ok = (tmpl <> "u0"); si_resp = resp; si_pps = pps }) in
+        { si_opts = opts; si_pre_ok = true; si_tmpl_ok = (tmpl <> "e"); si_prep_ok = (tmpl <> "u0"); si_resp = resp; si_pps = pps }) in
       let shots =
         if gun = "http" || h2gun then
-          List.map (fun s -> base_shoot { bc_bound = true; bc_connect = None; bc_http2 = h2gun } false s.si_resp) steps
+          List.map (fun s -> base_shoot { bc_bound = true; bc_connect = None; bc_http2 = h2gun; bc_opts = opts } false s.si_resp) steps
         else List.init iters (fun _ -> scenario_shoot true steps) in
       let (samples, failed) = instance_run shots in
       let show_s (s : sample) = Printf.sprintf "%d:%s" (int_of_z s.sm_code) (field_of_bool s.sm_err) in
